@@ -311,6 +311,59 @@ pub fn run(ctx: &Ctx) -> Vec<Report> {
             if !masks.is_empty() {
                 run_patterns(&mut rep, &mut r, base, opts, &masks, "sampled");
             }
+            // structured non-code-words (algebraic corner cases of a CRC divider): a prefix of the frame that is itself a
+            // code word (remainder register zero in mid-frame), followed by a zero run, then arbitrary bits and a PI field
+            // that is zero / random / the correct parity with one bit flipped; long zero and one runs in ME.
+            if base.s1.len == 112 {
+                let nst = ctx.share(ctx.n(8_000, 200_000));
+                let len = base.s1.len;
+                let mut masks: Vec<u128> = Vec::new();
+                for _ in 0..nst {
+                    let mut t = base.s1;
+                    match r.below(4) {
+                        0 | 1 => {
+                            let l = *r.pick(&[56u32, 56, 56, 64, 72, 80, 88]);
+                            let head = t.get(1, l - 24);
+                            let c = crc24_bits(head as u128, l - 24);
+                            t.set(l - 23, l, c as u64);
+                            let z = (*r.pick(&[8u32, 16, 24, 32])).min(len - 24 - l);
+                            if z > 0 {
+                                t.set(l + 1, l + z, 0);
+                            }
+                            if l + z < len - 24 {
+                                let w = len - 24 - (l + z);
+                                t.set(l + z + 1, len - 24, r.bits(w.min(56)));
+                            }
+                        }
+                        2 => {
+                            let a = 33 + r.below(40) as u32;
+                            let b = (a + 8 + r.below(40) as u32).min(88);
+                            t.set(a, b, 0);
+                        }
+                        _ => {
+                            let a = 33 + r.below(40) as u32;
+                            let b = (a + 8 + r.below(40) as u32).min(88);
+                            t.set(a, b, (1u64 << (b - a + 1).min(63)) - 1);
+                        }
+                    }
+                    match r.below(3) {
+                        0 => t.set(len - 23, len, 0),
+                        1 => t.set(len - 23, len, r.bits(24)),
+                        _ => {
+                            t.seal(0);
+                            t.flip(len - 23 + r.below(24) as u32);
+                        }
+                    }
+                    masks.push(t.bits ^ base.s1.bits);
+                    if masks.len() == chunk {
+                        run_patterns(&mut rep, &mut r, base, opts, &masks, "structured");
+                        masks.clear();
+                    }
+                }
+                if !masks.is_empty() {
+                    run_patterns(&mut rep, &mut r, base, opts, &masks, "structured");
+                }
+            }
             let _ = oi;
         }
     }
